@@ -278,22 +278,28 @@ def _tls_run(mode, stream, cut, late, titan):
     conn = StubTLSConn(flights=1)
     outer, tcp, loop, conn, made = make_tls(rec, None, rec if titan else None, conn)
     a, b = stream.cut(cut)
+
+    def recs(*pieces):
+        # a TLS application-data record handed up by recv() is never empty
+        return [("app", x) for x in pieces if x]
     if mode == 0:
         feed(outer, tcp, [("hs",)])
-        feed(outer, tcp, [("app", stream)])
+        feed(outer, tcp, recs(stream))
     elif mode == 1:
-        feed(outer, tcp, [("hs",), ("app", stream)])               # rides with the final handshake flight
+        feed(outer, tcp, [("hs",)] + recs(stream))                 # rides with the final handshake flight
     elif mode == 2:
         feed(outer, tcp, [("hs",)])
-        feed(outer, tcp, [("app", a), ("app", b)])                 # two records in one TCP read
+        feed(outer, tcp, recs(a, b))                               # two records in one TCP read
     elif mode == 3:
         feed(outer, tcp, [("hs",)])
-        feed(outer, tcp, [("app", a)])
+        feed(outer, tcp, recs(a))
         feed(outer, tcp, [])                                       # a read that completes no record
-        feed(outer, tcp, [("app", b)])
+        feed(outer, tcp, recs(b))
+    elif mode == 4:
+        feed(outer, tcp, [("hs",)] + recs(a))
+        feed(outer, tcp, recs(b))
     else:
-        feed(outer, tcp, [("hs",), ("app", a)])
-        feed(outer, tcp, [("app", b)])
+        feed(outer, tcp, [("hs",)] + recs(a, b))                   # final flight + two records, one read, then silence
     for _ in range(late):
         feed(outer, tcp, [("app", mk(Fill(1))), ("app", mk(Fill(1)))])
     loop.run_ready()
@@ -322,7 +328,7 @@ def _tls_coalesce(mode, n, cut, late, titan, sk):
 
 def tls_coalesce_gemini(mode: int, n: int, cut: int, late: int) -> bool:
     """
-    pre: 1 <= mode <= 4 and 0 <= n <= 1100 and 0 <= cut <= n + 14 and 0 <= late <= 1
+    pre: 1 <= mode <= 5 and 0 <= n <= 1100 and 0 <= cut <= n + 14 and 0 <= late <= 1
     post: _
     """
     return _tls_coalesce(mode, n, cut, late, False, 0)
@@ -330,7 +336,7 @@ def tls_coalesce_gemini(mode: int, n: int, cut: int, late: int) -> bool:
 
 def tls_coalesce_titan(mode: int, n: int, cut: int, late: int, sk: int) -> bool:
     """
-    pre: 1 <= mode <= 4 and 0 <= n <= 1100 and 0 <= cut <= n + 1100 and 0 <= late <= 1
+    pre: 1 <= mode <= 5 and 0 <= n <= 1100 and 0 <= cut <= n + 1100 and 0 <= late <= 1
     pre: 0 <= sk <= 1
     post: _
     """
